@@ -10,8 +10,8 @@ CONSTANTS Kinds = {"plain"}
           CoreLen = 2
           CoreT = 1
           CoreServers = {"schemes", "ports", "dup", "absbv", "relbv", "absbvx", "relbvx", "abshx", "abspx", "psschemes", "absschv", "schvdup", "psrel", "psvar", "abspe", "abspe2", "abshe"}
-          Slice = 12
+          Slice = 6
           Seed = 1
-          DesignAll = FALSE
+          DesignAll = TRUE
 INVARIANTS DesignOK Emit
 CHECK_DEADLOCK FALSE
